@@ -1,5 +1,5 @@
 (* C20 -- terminated bodies stay terminated. *)
-From HS Require Import Lib.Base Model.Body Proofs.BodyP Proofs.BodyRun.
+From HS Require Import Lib.Base Model.Body Model.Chunker Proofs.BodyP Proofs.BodyRun Proofs.AbortSteps.
 
 (* Once a body (Once, ExactLen, Multipart) has reported its end or an error, no number of
    further polls yields another byte -- provided the entity's own streams stay finished once
@@ -23,6 +23,18 @@ Proof.
   now apply mp_done_stays.
 Qed.
 
+(* The streaming body under a consumer that polls from inside the wake-up, i.e. BETWEEN the two steps of
+   BodyWriter::abort (publish the error and wake; then drop the chunk writer): the poll takes the error,
+   the drop that follows queues nothing -- whatever was still buffered in the writer --, and every later
+   poll is a clean end. (The model's OAbort is exactly these two steps: abort_is_two_steps.) *)
+Theorem c20_poll_between_the_steps_of_abort : forall s w q rb wd, c_reader s = true -> c_st s = SOk q rb wd ->
+  let '(s1, _) := abort_section s in
+  let '(s2, r, _) := cstep s1 (OPoll w) in
+  let '(s3, _) := drop_writer_inner (set_w s2 WDead) in
+  r = RPoll (Some (Some None)) /\ c_st s3 = SFused /\ c_buf s3 = [] /\
+  forall w', cstep s3 (OPoll w') = (s3, RPoll (Some None), []).
+Proof. exact poll_between_the_steps_of_abort. Qed.
+
 (* The pinned tree violated this: after an entity error inside a part, the next poll polled
    the failed part again and the one after indexed past the part list. *)
 Example c20_legacy_refuted :
@@ -45,3 +57,4 @@ Proof. vm_compute. reflexivity. Qed.
 Print Assumptions c20_no_more_data.
 Print Assumptions c20_no_panic.
 Print Assumptions c20_multipart_fused.
+Print Assumptions c20_poll_between_the_steps_of_abort.
